@@ -2,6 +2,7 @@ package compose
 
 import (
 	"context"
+	"io"
 	"strings"
 )
 
@@ -213,7 +214,25 @@ func c07Chain(np int, useBranch bool) {
 		return
 	}
 	vassert(cerr == nil, "a connection whose types must or may match compiles: "+desc)
-	_, rerr := r.Invoke(ctx, 0)
+	var rerr error
+	if (np < 2 || vtier() > 0) && vchoose("stream", 2) == 1 {
+		desc += " (Stream)"
+		sr, e := r.Stream(ctx, 0)
+		rerr = e
+		if e == nil {
+			for i := 0; i < 4; i++ {
+				if _, e := sr.Recv(); e != nil {
+					if e != io.EOF {
+						rerr = e
+					}
+					break
+				}
+			}
+			sr.Close()
+		}
+	} else {
+		_, rerr = r.Invoke(ctx, 0)
+	}
 	// a nil interface value is assignable to an interface-typed parameter of a connection that needs no run-time
 	// check (identical or implemented interface type); the run-time check of a 'may' connection rejects it
 	fitsT := func(to int) bool {
@@ -401,4 +420,84 @@ func VerifC07StateHandlers() {
 	vassert(addErr == nil && e1 == nil && e2 == nil && cerr == nil, "a state handler of the node's own type is accepted: handler "+desc)
 	out, rerr := r.Invoke(ctx, c07A{X: 5})
 	vassert(rerr == nil && out.X == 5, "a graph with accepted state handlers runs")
+}
+
+// A pass-through directly behind START in a graph whose input and output types differ (string / int): it carries the
+// graph's input type whichever way it got typed (forward from START or backward from its consumer); a second,
+// interface-typed edge into it is guarded by a run-time check for that type.
+//
+//	START --branch--> P(pass-through) --> C(string->int) --> END
+//	      \-> W(string->any) --may--> P
+func VerifC07StartPass() {
+	ctx := context.Background()
+	vcfg("fifo", 1)
+	vcfg("selectfirst", 1)
+	dyn := vchoose("dyn", 3) // what W emits: 0 a string, 1 an int, 2 nil
+	order := vchoose("order", 3)
+	viaW := vchoose("route", 2) == 1
+	g := NewGraph[string, int]()
+	var seen any
+	_ = g.AddPassthroughNode("P")
+	_ = g.AddLambdaNode("W", InvokableLambda(func(ctx context.Context, in string) (any, error) {
+		switch dyn {
+		case 0:
+			return in + "!", nil
+		case 1:
+			return 42, nil
+		}
+		return nil, nil
+	}))
+	_ = g.AddLambdaNode("C", InvokableLambda(func(ctx context.Context, in string) (int, error) { seen = in; return len(in), nil }))
+	var errs []error
+	startBranch := func() {
+		errs = append(errs, g.AddBranch(START, NewGraphBranch(func(ctx context.Context, in string) (string, error) {
+			if viaW {
+				return "W", nil
+			}
+			return "P", nil
+		}, map[string]bool{"P": true, "W": true})))
+	}
+	switch order {
+	case 0: // P typed forward, from START
+		startBranch()
+		errs = append(errs, g.AddEdge("P", "C"), g.AddEdge("W", "P"))
+	case 1: // P typed backward, from C
+		errs = append(errs, g.AddEdge("P", "C"))
+		startBranch()
+		errs = append(errs, g.AddEdge("W", "P"))
+	case 2: // the interface-typed edge is declared first
+		errs = append(errs, g.AddEdge("W", "P"))
+		startBranch()
+		errs = append(errs, g.AddEdge("P", "C"))
+	}
+	errs = append(errs, g.AddEdge("C", END))
+	for _, e := range errs {
+		vassert(e == nil, "every connection of the graph is accepted (string -> pass-through -> string, any -> pass-through)")
+	}
+	r, err := g.Compile(ctx)
+	vassert(err == nil, "the graph compiles")
+	var out int
+	var rerr error
+	if vchoose("stream", 2) == 1 {
+		sr, e := r.Stream(ctx, "ab")
+		rerr = e
+		if e == nil {
+			out, rerr = sr.Recv()
+			sr.Close()
+		}
+	} else {
+		out, rerr = r.Invoke(ctx, "ab")
+	}
+	if !viaW {
+		vassert(rerr == nil && out == 2, "the direct route works")
+		return
+	}
+	if dyn == 0 {
+		vassert(rerr == nil && out == 3 && seen == "ab!", "a string from the any-typed node passes the run-time check of the string-typed pass-through")
+		return
+	}
+	vassert(rerr != nil, "a value that is not a string is rejected")
+	msg := rerr.Error()
+	vassert(!strings.Contains(msg, "panic") && !strings.Contains(msg, "unexpected input type") && seen == nil,
+		"a wrongly typed value is reported by the run-time check as an ordinary error and never reaches the concretely typed node behind the pass-through")
 }
